@@ -46,8 +46,10 @@ def main():
                             "first_report": [l for l in r.stdout.splitlines() if l.startswith("  [")][:3],
                             "wall_s": round(time.time() - t0, 1)}
             caught = any(v["exit"] == 1 and v["violation_line"] for v in res.values())
+            concrete = any(v["exit"] == 1 and v["violation_line"] and "no-failing-input-found" not in v["violation_line"]
+                           for v in res.values())
             if not os.environ.get("VERIF_NOPROVE"):
-                json.dump({"caught": caught, "checks": res}, open(os.path.join(d, "result.json"), "w"), indent=1)
+                json.dump({"caught": caught, "failing_input_reported": concrete, "checks": res}, open(os.path.join(d, "result.json"), "w"), indent=1)
             rows.append((name, "CAUGHT" if caught else "MISSED",
                          "; ".join("%s:%s%s" % (p, v["exit"], " nfi" if v["violation_line"] and "no-failing-input-found" in v["violation_line"] else "") for p, v in res.items())))
     finally:
